@@ -120,7 +120,14 @@ def _allowempty_listdir(path: str):
 def _safe_remove(path: str):
   """Identify whether a path is a dir or list and choose the correct remove method."""
   if io.isdir(path):
-    io.rmtree(path)
+    # A directory cannot be removed atomically. Move it out of the way first,
+    # to a name that checkpoint listing ignores, so that an interruption never
+    # leaves a partially deleted checkpoint that still looks valid.
+    tmp_path = f'{path}{ocp.utils.TMP_DIR_SUFFIX}-deleting'
+    if io.exists(tmp_path):
+      io.rmtree(tmp_path)
+    io.rename(path, tmp_path)
+    io.rmtree(tmp_path)
   else:
     io.remove(path)
 
